@@ -640,10 +640,23 @@ func (me *MemberExpression) WriteTo(cw *CodeWriter) {
 		me.Property.WriteTo(cw)
 		cw.WriteRune(']')
 	} else {
+		if lit, ok := me.Object.(*IntegerLiteral); ok && isDecimalDigits(lit.Token.Literal) {
+			// `5.x` would be read as the number `5.` followed by `x`
+			cw.WriteRune(' ')
+		}
 		cw.AddMapping(me.Token.Start)
 		cw.WriteRune('.')
 		me.Property.WriteTo(cw)
 	}
+}
+
+func isDecimalDigits(s string) bool {
+	for i := 0; i < len(s); i++ {
+		if s[i] < '0' || s[i] > '9' {
+			return false
+		}
+	}
+	return len(s) > 0
 }
 
 func (me *MemberExpression) Precedence() int {
